@@ -39,6 +39,19 @@ macro_rules! rejects {
     }};
 }
 
+// same, plus std::mem::drop leaking (lex/verif_kani/common.rs::mem_drop__leak): used for
+// the spellings deep in the alternative chain, which are 2-4 times faster without std's
+// BTreeMap destructor in the dead drop glue.
+macro_rules! obligation_leak {
+    ($name:ident, $body:block) => {
+        #[kani::proof]
+        #[kani::unwind(1)]
+        #[kani::stub(std::mem::drop, crate::lex::verif_kani::common::mem_drop__leak)]
+        #[kani::stub(crate::lex::expect, crate::lex::verif_kani::common::expect__contract)]
+        fn $name() $body
+    };
+}
+
 macro_rules! obligation {
     ($name:ident, $body:block) => {
         #[kani::proof]
@@ -78,27 +91,27 @@ obligation!(ordering_op__gt_eq, {
     lexes!(OrderingOp, ">=", 2, OrderingOp::GreaterThanEqual);
     lexes!(OrderingOp, ">= x", 2, OrderingOp::GreaterThanEqual);
 });
-obligation!(ordering_op__le, {
+obligation_leak!(ordering_op__le, {
     lexes!(OrderingOp, "le", 2, OrderingOp::LessThanEqual);
     lexes!(OrderingOp, "le x", 2, OrderingOp::LessThanEqual);
 });
-obligation!(ordering_op__lt_eq, {
+obligation_leak!(ordering_op__lt_eq, {
     lexes!(OrderingOp, "<=", 2, OrderingOp::LessThanEqual);
     lexes!(OrderingOp, "<= x", 2, OrderingOp::LessThanEqual);
 });
-obligation!(ordering_op__gt, {
+obligation_leak!(ordering_op__gt, {
     lexes!(OrderingOp, "gt", 2, OrderingOp::GreaterThan);
     lexes!(OrderingOp, "gt x", 2, OrderingOp::GreaterThan);
 });
-obligation!(ordering_op__gt_sign, {
+obligation_leak!(ordering_op__gt_sign, {
     lexes!(OrderingOp, ">", 1, OrderingOp::GreaterThan);
     lexes!(OrderingOp, "> x", 1, OrderingOp::GreaterThan);
 });
-obligation!(ordering_op__lt, {
+obligation_leak!(ordering_op__lt, {
     lexes!(OrderingOp, "lt", 2, OrderingOp::LessThan);
     lexes!(OrderingOp, "lt x", 2, OrderingOp::LessThan);
 });
-obligation!(ordering_op__lt_sign, {
+obligation_leak!(ordering_op__lt_sign, {
     lexes!(OrderingOp, "<", 1, OrderingOp::LessThan);
     lexes!(OrderingOp, "< x", 1, OrderingOp::LessThan);
 });
@@ -193,25 +206,25 @@ obligation!(comparison_op__gt_sign, {
 obligation!(comparison_op__lt, {
     lexes!(ComparisonOp, "lt x", 2, O(OrderingOp::LessThan));
 });
-obligation!(comparison_op__lt_sign, {
+obligation_leak!(comparison_op__lt_sign, {
     lexes!(ComparisonOp, "< x", 1, O(OrderingOp::LessThan));
 });
-obligation!(comparison_op__amp, {
+obligation_leak!(comparison_op__amp, {
     lexes!(ComparisonOp, "& x", 1, I(IntOp::BitwiseAnd));
 });
-obligation!(comparison_op__bitwise_and, {
+obligation_leak!(comparison_op__bitwise_and, {
     lexes!(ComparisonOp, "bitwise_and x", 11, I(IntOp::BitwiseAnd));
 });
-obligation!(comparison_op__contains, {
+obligation_leak!(comparison_op__contains, {
     lexes!(ComparisonOp, "contains x", 8, B(BytesOp::Contains));
 });
-obligation!(comparison_op__tilde, {
+obligation_leak!(comparison_op__tilde, {
     lexes!(ComparisonOp, "~ x", 1, B(BytesOp::Matches));
 });
-obligation!(comparison_op__matches, {
+obligation_leak!(comparison_op__matches, {
     lexes!(ComparisonOp, "matches x", 7, B(BytesOp::Matches));
 });
-obligation!(comparison_op__wildcard, {
+obligation_leak!(comparison_op__wildcard, {
     lexes!(ComparisonOp, "wildcard x", 8, B(BytesOp::Wildcard));
 });
 // 20 alternatives deep: with the contract stub and the dead BTreeSet destructors CBMC
@@ -224,7 +237,7 @@ fn comparison_op__strict_wildcard() {
     lexes!(ComparisonOp, "strict wildcard x", 15, B(BytesOp::StrictWildcard));
 }
 // `!` alone is the unary operator, never a comparison
-obligation!(comparison_op__bang_alone_rejected, {
+obligation_leak!(comparison_op__bang_alone_rejected, {
     rejects!(ComparisonOp, "! x");
 });
 
